@@ -22,9 +22,11 @@ def opOK (c : Cfg) (P : XPrec) : Bool :=
 /-- the template is a primary: it may stand in any operand position of the bare infix text -/
 def primOK (t : Tmpl) : Bool := decide (lvlH 0 (shapeOf t) ≥ 100)
 
-/-- every builtin template tolerates ANY operand text in every placeholder position (A1 `tableOK 0`:
-placeholders sit in parentheses or call-argument positions) and is itself a primary -/
-def fnsOK (c : Cfg) : Bool := tableOK 0 c.fns && c.fns.all primOK
+/-- every builtin template tolerates ANY operand text the generator can produce in every placeholder
+position (A1 `tableOK 1`: every operand text is at least an `or`-expression — a conditional is always
+emitted parenthesised —, so placeholders must sit in parentheses, call-argument, condition or branch
+positions) and is itself a primary -/
+def fnsOK (c : Cfg) : Bool := tableOK 1 c.fns && c.fns.all primOK
 
 /-- `(not {})` tolerates operands of level ≥ 3 (comparisons and tighter) and is a primary -/
 def notOK (c : Cfg) : Bool := tmplOK 3 c.notT && primOK c.notT
@@ -128,7 +130,7 @@ theorem findFn_mem (c : Cfg) (f : String) (n : Nat) (t : Tmpl) (h : findFn c f n
   exact ⟨hm, hp.1, hp.2⟩
 
 theorem fnsOK_tmpl (c : Cfg) (h : fnsOK c = true) (t : Tmpl) (ht : t ∈ c.fns) :
-    tmplOK 0 t = true ∧ lvlH 0 (shapeOf t) ≥ 100 := by
+    tmplOK 1 t = true ∧ lvlH 0 (shapeOf t) ≥ 100 := by
   unfold fnsOK at h
   simp only [Bool.and_eq_true] at h
   constructor
@@ -141,29 +143,32 @@ theorem fnsOK_tmpl (c : Cfg) (h : fnsOK c = true) (t : Tmpl) (ht : t ∈ c.fns) 
     have := this t ht
     simpa [primOK] using this
 
-theorem good0_of (L : Nat) (p : Py) (h : Good L p) : Good 0 p := ⟨h.1, Nat.zero_le _, h.2.2⟩
+theorem good1_of (L : Nat) (p : Py) (h : Good L p) (hl : lvl p ≥ 100) : Good 1 p := ⟨h.1, by omega, h.2.2⟩
+
+theorem bp_pos (k : BinOp) : Py.bp k ≥ 1 := by cases k <;> simp [Py.bp]
 
 theorem pr_idPy (s : String) (init : Bool) : pr (idPy s init) = idToks s init := by
   cases init <;> simp [idPy, idToks, pr, prArgs]
 
-theorem good_idPy (s : String) (init : Bool) : Good 0 (idPy s init) ∧ lvl (idPy s init) = 100 := by
+theorem good_idPy (s : String) (init : Bool) : Good 1 (idPy s init) ∧ lvl (idPy s init) = 100 := by
   cases init <;> simp [idPy, Good, WLb, WLbArgs, WLbArg, lvlH, lvl, noHole, noHoleL]
 
 /-- one template step: operands `σ` that are good for level `L`, plugged into a template that is
 `tmplOK L` and a primary, give a good primary whose printing is the formatted text. -/
 theorem tmpl_step (L : Nat) (t : Tmpl) (ht : tmplOK L t = true) (hp : lvlH 0 (shapeOf t) ≥ 100)
     (σ : Nat → Py) (hσ : ∀ i, Good L (σ i)) (τ : Nat → List Tok) (hτ : ∀ i, τ i = pr (σ i)) :
-    Good 0 (subst σ (shapeOf t)) ∧ lvl (subst σ (shapeOf t)) ≥ 100 ∧
+    Good 1 (subst σ (shapeOf t)) ∧ lvl (subst σ (shapeOf t)) ≥ 100 ∧
       substToks τ t.toks = pr (subst σ (shapeOf t)) := by
   have hs := tmplOK_shape L t ht
   have hg := subst_good L σ hσ (shapeOf t) hs.2.1 hs.2.2
-  refine ⟨good0_of L _ hg, ?_, ?_⟩
-  · have h1 : lvlH 0 (subst σ (shapeOf t)) ≥ lvlH 0 (shapeOf t) := by
+  have hl : lvl (subst σ (shapeOf t)) ≥ 100 := by
+    have h1 : lvlH 0 (subst σ (shapeOf t)) ≥ lvlH 0 (shapeOf t) := by
       cases hsh : shapeOf t with
       | hole i => rw [hsh] at hp; simp [lvlH] at hp
       | _ => simp [subst, lvlH, lvl]
     have h2 := lvlH0_le (subst σ (shapeOf t))
     omega
+  refine ⟨good1_of L _ hg hl, hl, ?_⟩
   · rw [pr_subst, hs.1]
     exact substToks_congr _ _ hτ _
 
@@ -171,8 +176,8 @@ theorem nthD_toks (l : List Py) (gs : List (List Tok)) (h : gs = l.map pr) (i : 
     nthD [Tok.name "MISSING"] gs i = pr (nthD (.name "MISSING") l i) := by
   rw [h, nthD_map]
 
-theorem good_sel3 (a b c : Py) (ha : Good 0 a) (hb : Good 0 b) (hc : Good 0 c) (i : Nat) :
-    Good 0 (sel3 a b c i) := by
+theorem good_sel3 (a b c : Py) (ha : Good 1 a) (hb : Good 1 b) (hc : Good 1 c) (i : Nat) :
+    Good 1 (sel3 a b c i) := by
   match i with
   | 0 => exact ha
   | 1 => exact hb
@@ -193,7 +198,7 @@ include hP hO hF hN
 
 mutual
 theorem gen_trans (x : X) (init : Bool) (hx : XWL P x = true) (hk : known c x = true) :
-    Good 0 (trans c P init x) ∧ lvl (trans c P init x) ≥ xlvl P x ∧
+    Good 1 (trans c P init x) ∧ lvl (trans c P init x) ≥ xlvl P x ∧
       gen c init x = pr (trans c P init x) := by
   match x, hx, hk with
   | .num s, _, _ => simp [trans, gen, Good, WLb, lvl, noHole, xlvl, pr]
@@ -211,7 +216,7 @@ theorem gen_trans (x : X) (init : Bool) (hx : XWL P x = true) (hk : known c x = 
     | some t =>
       have hm := findFn_mem c _ _ t hf
       have ht := fnsOK_tmpl c hF t hm.1
-      have := tmpl_step 0 t ht.1 ht.2 (fun _ => trans c P init e) (fun _ => ih.1)
+      have := tmpl_step 1 t ht.1 ht.2 (fun _ => trans c P init e) (fun _ => ih.1)
         (fun _ => gen c init e) (fun _ => ih.2.2)
       exact ⟨this.1, by simp only [xlvl]; exact this.2.1, this.2.2⟩
   | .neg e, hx, hk =>
@@ -221,7 +226,7 @@ theorem gen_trans (x : X) (init : Bool) (hx : XWL P x = true) (hk : known c x = 
     have hu := precAgree_un P hP
     have hl : lvl (trans c P init e) ≥ 7 := by have := ih.2.1; have := hx.2; omega
     have hlH := lvlH_noHole _ ih.1.2.2
-    refine ⟨⟨?_, Nat.zero_le _, ?_⟩, ?_, ?_⟩
+    refine ⟨⟨?_, by simp [trans, lvl], ?_⟩, ?_, ?_⟩
     · simp only [trans, WLb, Bool.and_eq_true, decide_eq_true_eq]; exact ⟨ih.1.1, by omega⟩
     · simp only [trans, noHole]; exact ih.1.2.2
     · simp only [trans, lvl, xlvl]; exact hu.2.1
@@ -250,7 +255,7 @@ theorem gen_trans (x : X) (init : Bool) (hx : XWL P x = true) (hk : known c x = 
     have ha := precAgree_op P hP k
     have hlHl := lvlH_noHole _ ihl.1.2.2
     have hlHr := lvlH_noHole _ ihr.1.2.2
-    refine ⟨⟨?_, Nat.zero_le _, ?_⟩, ?_, ?_⟩
+    refine ⟨⟨?_, by simp only [trans, lvl]; exact bp_pos _, ?_⟩, ?_, ?_⟩
     · simp only [trans, WLb, Bool.and_eq_true, decide_eq_true_eq]
       refine ⟨⟨⟨ihl.1.1, ihr.1.1⟩, ?_⟩, ?_⟩
       · have := ihl.2.1; omega
@@ -272,7 +277,7 @@ theorem gen_trans (x : X) (init : Bool) (hx : XWL P x = true) (hk : known c x = 
     | some t =>
       have hm := findFn_mem c _ _ t hf
       have ht := fnsOK_tmpl c hF t hm.1
-      have := tmpl_step 0 t ht.1 ht.2 (sel3 (trans c P init cnd) (trans c P init a) (trans c P init b))
+      have := tmpl_step 1 t ht.1 ht.2 (sel3 (trans c P init cnd) (trans c P init a) (trans c P init b))
         (good_sel3 _ _ _ ihc.1 iha.1 ihb.1)
         (sel3 (gen c init cnd) (gen c init a) (gen c init b))
         (by intro i; rw [ihc.2.2, iha.2.2, ihb.2.2]; exact pr_sel3 _ _ _ i)
@@ -287,13 +292,13 @@ theorem gen_trans (x : X) (init : Bool) (hx : XWL P x = true) (hk : known c x = 
     | some t =>
       have hm := findFn_mem c _ _ t hf
       have ht := fnsOK_tmpl c hF t hm.1
-      have := tmpl_step 0 t ht.1 ht.2 (nthD (.name "MISSING") (transL c P (initMode init f) args))
-        (nthD_good 0 (by decide) _ ih.1)
+      have := tmpl_step 1 t ht.1 ht.2 (nthD (.name "MISSING") (transL c P (initMode init f) args))
+        (nthD_good 1 (by decide) _ ih.1)
         (nthD [Tok.name "MISSING"] (genL c (initMode init f) args))
         (nthD_toks _ _ ih.2)
       exact ⟨this.1, by simp only [xlvl]; exact this.2.1, this.2.2⟩
 theorem genL_transL (xs : List X) (init : Bool) (hx : XWLL P xs = true) (hk : knownL c xs = true) :
-    (∀ p ∈ transL c P init xs, Good 0 p) ∧ genL c init xs = (transL c P init xs).map pr := by
+    (∀ p ∈ transL c P init xs, Good 1 p) ∧ genL c init xs = (transL c P init xs).map pr := by
   match xs, hx, hk with
   | [], _, _ => simp [transL, genL]
   | e :: es, hx, hk =>
